@@ -14,6 +14,7 @@ import (
 
 func init() {
 	verifRegister("VerifC20_KRoot", VerifC20_KRoot)
+	verifRegister("VerifC20_KRootRel", VerifC20_KRootRel)
 	verifRegister("VerifC20_KFS", VerifC20_KFS)
 }
 
@@ -60,7 +61,11 @@ func vStub_path_filepath_EvalSymlinks(path string) (string, error) {
 		if filepath.IsAbs(path) {
 			res = verifAbsTargets[vndChoice("link.res", len(verifAbsTargets))]
 		} else {
-			res = verifAllTargets[vndChoice("link.res", len(verifAllTargets))]
+			if verifRelMode {
+				res = verifRelTargets[vndChoice("link.res", len(verifRelTargets))]
+			} else {
+				res = verifAllTargets[vndChoice("link.res", len(verifAllTargets))]
+			}
 		}
 	}
 	verifLinks = append(verifLinks, verifLink{path, res, fail})
@@ -74,6 +79,10 @@ func vStub_path_filepath_EvalSymlinks(path string) (string, error) {
 // file system /A/b is not inside /a)
 var verifAbsTargets = []string{"/a", "/ab", "/a/b", "/b", "/", "/a/a", "/a/b/a", "/A", "/A/b"}
 var verifAllTargets = []string{"/a", "/ab", "/a/b", "/b", "/", "a", "ab", "a/b", "b", "a/a", "..", "../a", "/A/b", "A/b"}
+
+// relative roots: real paths above and below the working directory
+var verifRelTargets = []string{"/a", "/a/b", "/", "a", "a/b", "..", "../a", "../..", "../../a", ".", "/b"}
+var verifRelMode bool
 
 func vStub_os_ReadFile(name string) ([]byte, error) {
 	verifReads = append(verifReads, name)
@@ -123,7 +132,7 @@ var verifCwd string
 
 func vStub_os_Getwd() (string, error) {
 	if verifCwd == "" {
-		verifCwd = []string{"/a", "/b", "/a/b", "/", "/ab"}[vndChoice("cwd", 5)]
+		verifCwd = []string{"/a", "/b", "/a/b", "/", "/ab"}[vndChoice("cwd", vParam("cwds", 2))]
 	}
 	return verifCwd, nil
 }
@@ -177,17 +186,43 @@ func verifInside(p, r string) bool {
 	return len(p) > len(r) && p[:len(r)] == r && p[len(r)] == '/'
 }
 
+// verifAbs: where a relative path really is -- against the working directory the library was told
+// (os.Getwd stub), or, when it never asked, against an arbitrary directory deep enough that no run
+// of ".." bottoms out.  Containment is a statement about REAL paths, never about spellings.
+func verifAbs(p string) string {
+	if filepath.IsAbs(p) {
+		return filepath.Clean(p)
+	}
+	cwd := verifCwd
+	if cwd == "" {
+		cwd = "/c/d/e/f"
+	}
+	return filepath.Clean(cwd + "/" + p)
+}
+
 func VerifC20_KRoot() {
+	verifRelMode = false
+	verifKRoot([]string{"/a", "a", "/", "/a/", "./a", "/a/b"}, []string{"", "/a/x", "b/x", "x", "/a/b/x", "../x"}, true)
+}
+
+// Relative roots made of "." and ".." (and a relative name that is a link to them): the resolver's
+// answers include real paths ABOVE the working directory.  A root of ".." contains "../a" and does
+// not contain "../.." -- whatever the spellings share as a prefix.
+func VerifC20_KRootRel() {
+	verifRelMode = true
+	verifKRoot([]string{"..", ".", "a", "../a"}, []string{"", "x", "../x", "a/x"}, false)
+	verifRelMode = false
+}
+
+func verifKRoot(roots, ctxs []string, withPrior bool) {
 	verifLinks, verifReads, verifKinds, verifLastLink = nil, nil, nil, nil
 	verifCwd = ""
 	verifRLen = vParam("rlen", 3)
-	roots := []string{"/a", "a", "/", "/a/", "./a", "/a/b"}
 	root := roots[vndChoice("root", len(roots))]
 	loc := verifPath("loc", vParam("loclen", 3))
-	ctxs := []string{"", "/a/x", "b/x", "x", "/a/b/x", "../x"}
 	ctxLoc := ctxs[vndChoice("ctx", len(ctxs))]
 	lib := &RelativeFileSystemLibrary{RootDir: root}
-	if vndBool("prior") {
+	if withPrior && vndBool("prior") {
 		// the SAME library value has served a load before, under another root and another link
 		// topology (a deploy swap re-targets the symlink the root passes through): nothing of that
 		// earlier resolution may be reused.
@@ -216,7 +251,7 @@ func VerifC20_KRoot() {
 	var rroot string
 	found := false
 	for _, l := range verifLinks {
-		if l.arg == filepath.Clean(root) && !l.fail {
+		if (l.arg == filepath.Clean(root) || l.arg == verifAbs(root)) && !l.fail {
 			rroot, found = l.res, true
 			break
 		}
@@ -230,7 +265,7 @@ func VerifC20_KRoot() {
 		}
 	}
 	vAssert(isResolved, "the path read is a fully resolved path")
-	vAssert(verifInside(read, rroot), "the file read lies inside the resolved root")
+	vAssert(verifInside(verifAbs(read), verifAbs(rroot)), "the file read lies inside the resolved root (real paths: a relative spelling is taken against the working directory)")
 	// the location resolved is the cleaned join with the loading file's directory
 	want := loc
 	if !filepath.IsAbs(loc) && ctxLoc != "" {
@@ -239,7 +274,7 @@ func VerifC20_KRoot() {
 	want = filepath.Clean(want)
 	okArg := false
 	for _, l := range verifLinks {
-		if l.arg == want && !l.fail && l.res == read {
+		if (l.arg == want || l.arg == verifAbs(want)) && !l.fail && l.res == read {
 			okArg = true
 		}
 	}
